@@ -32,6 +32,9 @@ type GNode struct {
 	IsCond bool
 	// Exit: control leaves the function after this node (return, fall off, no-return call)
 	Exit bool
+	// Synth marks the synthetic statements of a spliced-in helper: "bind" (parameters := arguments) and
+	// "result" (the caller's left-hand sides := the helper's returned expressions)
+	Synth string
 }
 
 type Flat struct {
@@ -625,6 +628,23 @@ func (f *Flat) ReachNil(start []int, stop func(*GNode) bool) map[int]bool {
 						if l != nil && r != nil {
 							if v, known := facts[r]; known {
 								nf[l] = v
+							}
+						}
+						if l != nil {
+							// constants of nil-ness: x = nil; x = fmt.Errorf(...) / errors.New(...) / &T{...}
+							switch rhs := ast.Unparen(as.Rhs[i]).(type) {
+							case *ast.Ident:
+								if isNilIdent(info, rhs) {
+									nf[l] = true
+								}
+							case *ast.CallExpr:
+								if isFunc(info, rhs, "fmt", "Errorf") || isFunc(info, rhs, "errors", "New") {
+									nf[l] = false
+								}
+							case *ast.UnaryExpr:
+								if _, isLit := ast.Unparen(rhs.X).(*ast.CompositeLit); isLit && rhs.Op == token.AND {
+									nf[l] = false
+								}
 							}
 						}
 					}
